@@ -131,6 +131,12 @@ Proof.
       rewrite Ea, Eg, Hw, Hm in Ec. discriminate.
 Qed.
 
+Lemma stream_return_now : forall c o code s, s_now (stream_return c o code s) = s_now s.
+Proof.
+  intros c o code s. assert (H0 : keeps_now (s_now s) s) by reflexivity. assert (H : keeps_now (s_now s) (stream_return c o code s)); [|exact H].
+  unfold stream_return, maybe_start_cleanup. inv_go fail t_know.
+Qed.
+
 (* the operation whose waiter count the event may lower *)
 Definition ret_op (e : event) (p0 : pc) (dflt : nat) : nat :=
   match e with
@@ -176,7 +182,8 @@ Proof. intros s0 oc p l s waits H. apply (fr_terminate_fold (WUb s0 oc)); try (i
 Lemma WUb_step_core : forall s0 e s dflt, GWU s0 (ret_op e (get_call s (ev_call e)) dflt) s ->
   let oc := ret_op e (get_call s (ev_call e)) dflt in
   WUb s0 oc (step_core e s) /\
-  (oc = dflt \/ exists t, rearmed oc (s_now (enter t s) + cf_nowaiters (s_cfg (enter t s))) (step_core e s) /\ e = EEnter (ev_call e) t).
+  (oc = dflt \/ exists t, rearmed oc (s_now (enter t s) + cf_nowaiters (s_cfg (enter t s))) (step_core e s) /\ e = EEnter (ev_call e) t /\
+                         s_now (step_core e s) = s_now (enter t s)).
 Proof.
   intros s0 e s dflt H oc.
   assert (He : forall t, WUb s0 oc (enter t s)) by (intro t; exact (proj2 (GWU_enter s0 oc t s H))).
@@ -203,8 +210,8 @@ Proof.
     destruct (get_call s c) eqn:Ep; cbn [ret_op at_gate negb] in *;
       try (split; [|left; reflexivity]; clearbody s1; try (destruct (negb _)); try exact B; try exact B0;
            unfold stream_iter, kill_lookup, wait_execution_begin, stream_iter, ret, sync_loop, assign_next_queued_task, sync_return_exec, sync_return_err, sync_return_idle, finish_sync, maybe_dequeue, maybe_start_cleanup; wu_go1; fail).
-    + destruct (stream_return_spec s0 c o cCANCELLED s1 B) as [A1 A2]. split; [exact A1|right; exists t; split; [exact A2|reflexivity]].
-    + destruct (stream_return_spec s0 c o code s1 B) as [A1 A2]. split; [exact A1|right; exists t; split; [exact A2|reflexivity]].
+    + destruct (stream_return_spec s0 c o cCANCELLED s1 B) as [A1 A2]. split; [exact A1|right; exists t; split; [exact A2|split; [reflexivity|apply stream_return_now]]].
+    + destruct (stream_return_spec s0 c o code s1 B) as [A1 A2]. split; [exact A1|right; exists t; split; [exact A2|split; [reflexivity|apply stream_return_now]]].
   - cbv zeta. destruct (at_gate s (get_call s c)); [exact (proj2 H)|]. pose proof (He t) as B. pose proof (proj2 H) as B0. set (s1 := enter t s) in *. clearbody s1.
     destruct (get_call s c); unfold stream_iter, sync_return_exec, sync_return_idle, finish_sync, maybe_dequeue; wu_go1.
   - cbv zeta. destruct (at_gate s (get_call s c)); [exact (proj2 H)|]. destruct H as [_ B]. destruct (get_call s c); unfold ret; wu_go1.
